@@ -178,8 +178,15 @@ pub fn emitted() -> u64 {
 }
 
 /// Run `f`, turning a panic into `Err(message)`.
+thread_local! {
+    static CATCH_DEPTH: std::cell::Cell<u32> = const { std::cell::Cell::new(0) };
+}
+
 pub fn catch<T>(f: impl FnOnce() -> T) -> Result<T, String> {
-    match std::panic::catch_unwind(std::panic::AssertUnwindSafe(f)) {
+    let _ = CATCH_DEPTH.try_with(|d| d.set(d.get() + 1));
+    let r = std::panic::catch_unwind(std::panic::AssertUnwindSafe(f));
+    let _ = CATCH_DEPTH.try_with(|d| d.set(d.get().saturating_sub(1)));
+    match r {
         Ok(v) => Ok(v),
         Err(e) => {
             // the message is harness bookkeeping: keep it out of the shadow allocator's books
@@ -203,6 +210,22 @@ pub fn quiet_panics() {
     std::panic::set_hook(Box::new(|info| {
         if std::env::var_os("TV_LOUD").is_some() {
             eprintln!("panic: {}", info);
+        }
+        // a panic outside every `catch` scope is not one the harness provoked: leave a record saying where it was
+        // raised (library or harness) and which library operation was in flight, so the driver can attribute it
+        if CATCH_DEPTH.try_with(|d| d.get()).unwrap_or(0) == 0 {
+            let loc = info.location().map(|l| format!("{}:{}", l.file(), l.line())).unwrap_or_default();
+            let p = CUR_OP.load(std::sync::atomic::Ordering::Relaxed);
+            let n = CUR_LEN.load(std::sync::atomic::Ordering::Relaxed);
+            let op = if p.is_null() {
+                String::new()
+            } else {
+                String::from_utf8_lossy(unsafe { std::slice::from_raw_parts(p, n) }).to_string()
+            };
+            let msg: String = format!("{}", info).chars().filter(|c| *c != '"' && *c != '\\' && !c.is_control()).take(300).collect();
+            println!("\n@@{{\"t\":\"panic\",\"loc\":\"{}\",\"op\":\"{}\",\"msg\":\"{}\"}}", loc.replace('"', "").replace('\\', "/"), op, msg);
+            use std::io::Write;
+            let _ = std::io::stdout().flush();
         }
     }));
 }
@@ -287,3 +310,73 @@ pub fn install_crash_reporter() {
     #[cfg(all(unix, not(miri)))]
     crash::install();
 }
+
+/// A hasher that is sensitive to *how* it is fed, like the per-call hashers in wide use (FxHasher, ahash, ...):
+/// every `write*` call mixes in which method was called and with how many bytes, so "one write of n bytes" and
+/// "n writes of one byte" give different results although the byte stream is the same. A handle's `Hash` must feed
+/// any hasher exactly like the value's `Hash` does.
+#[derive(Default)]
+pub struct CallHasher {
+    acc: u64,
+    calls: u64,
+}
+impl CallHasher {
+    pub fn new() -> Self {
+        CallHasher { acc: 0xcbf2_9ce4_8422_2325, calls: 0 }
+    }
+    fn mix(&mut self, kind: u8, bytes: &[u8]) {
+        self.calls += 1;
+        let mut a = self.acc ^ ((kind as u64) << 56) ^ (bytes.len() as u64).wrapping_mul(0x9E37_79B9_7F4A_7C15);
+        a = a.wrapping_mul(0x0000_0100_0000_01B3);
+        for b in bytes {
+            a ^= *b as u64;
+            a = a.wrapping_mul(0x0000_0100_0000_01B3);
+        }
+        self.acc = a.rotate_left(5) ^ self.calls;
+    }
+}
+impl std::hash::Hasher for CallHasher {
+    fn finish(&self) -> u64 {
+        self.acc
+    }
+    fn write(&mut self, bytes: &[u8]) {
+        self.mix(1, bytes)
+    }
+    fn write_u8(&mut self, i: u8) {
+        self.mix(2, &[i])
+    }
+    fn write_u16(&mut self, i: u16) {
+        self.mix(3, &i.to_le_bytes())
+    }
+    fn write_u32(&mut self, i: u32) {
+        self.mix(4, &i.to_le_bytes())
+    }
+    fn write_u64(&mut self, i: u64) {
+        self.mix(5, &i.to_le_bytes())
+    }
+    fn write_u128(&mut self, i: u128) {
+        self.mix(6, &i.to_le_bytes())
+    }
+    fn write_usize(&mut self, i: usize) {
+        self.mix(7, &i.to_le_bytes())
+    }
+    fn write_i8(&mut self, i: i8) {
+        self.mix(8, &i.to_le_bytes())
+    }
+    fn write_i16(&mut self, i: i16) {
+        self.mix(9, &i.to_le_bytes())
+    }
+    fn write_i32(&mut self, i: i32) {
+        self.mix(10, &i.to_le_bytes())
+    }
+    fn write_i64(&mut self, i: i64) {
+        self.mix(11, &i.to_le_bytes())
+    }
+    fn write_i128(&mut self, i: i128) {
+        self.mix(12, &i.to_le_bytes())
+    }
+    fn write_isize(&mut self, i: isize) {
+        self.mix(13, &i.to_le_bytes())
+    }
+}
+
